@@ -1,8 +1,44 @@
 import Labella.Model.LayoutSpec
+import Labella.Proofs.LayoutSep
+import Labella.Proofs.DistributeLemmas
+/-! # C06 — a layout is a pure function of the labels and options
+
+For every label list (ties, identical positions, labels wider than a layer, 1–2 labels) and every option set. -/
 namespace Labella.C06
 open Labella Labella.Layout
 
-theorem placeholder_empty (o : DOpts) : distribute o [] = [] := by
-  simp [distribute]
+/-! ### C06 -/
+
+/-- The engine reports exactly the layering it computed, and its result after ANY history of
+set-options / set-labels / compute calls is the pure function `compute` of the accumulated options and the current
+labels: re-computing changes nothing and a reused engine behaves like a fresh one. -/
+theorem engine_is_pure (e : Engine) (ops : List EOp) :
+    ((e.run ops).step .compute).layers = some (compute (e.run ops).opts (e.run ops).labels) := by
+  simp [Engine.step]
+
+theorem compute_idempotent (e : Engine) :
+    ((e.step .compute).step .compute).layers = (e.step .compute).layers := by
+  simp [Engine.step]
+
+/-- two stable sorts of permutations of a list whose key-equal elements are equal are the same list -/
+theorem sort_canonical (l1 l2 : List LItem) (hp : l1.Perm l2)
+    (hint : ∀ a ∈ l1, ∀ b ∈ l1, a.target = b.target → a = b) :
+    (sortItems l1.zipIdx).map (·.1) = (sortItems l2.zipIdx).map (·.1) := by
+  exact sortItems_canonical l1 l2 hp hint
+
+/-- hence presenting the items of a layer in a different input order (interchangeable ties) gives the same
+positions, item for item -/
+theorem removeOverlap_perm (o : ROpts) (l1 l2 : List LItem) (hp : l1.Perm l2)
+    (hint : ∀ a ∈ l1, ∀ b ∈ l1, a.target = b.target → a = b) :
+    (removeOverlap o l1).xs = (removeOverlap o l2).xs ∧ (removeOverlap o l1).pos = (removeOverlap o l2).pos := by
+  unfold removeOverlap
+  simp only [sortItems_canonical l1 l2 hp hint, and_self]
+
+/-- the same for the label order seen by the layering step -/
+theorem sortIds_canonical (l1 l2 : List Label) (hp : l1.Perm l2)
+    (hint : ∀ a ∈ l1, ∀ b ∈ l1, a.ideal = b.ideal → a = b) :
+    (sortIds l1).map (fun i => l1.getD i ⟨0, 0⟩) = (sortIds l2).map (fun i => l2.getD i ⟨0, 0⟩) := by
+  rw [sortIds_getD, sortIds_getD]
+  exact sortedLabels_canonical l1 l2 hp hint
 
 end Labella.C06
